@@ -112,14 +112,18 @@ claim("C06", "other",
       "structural contract obligations on the AST + bounded native comparison with an independent re-implementation of the published algorithm", "DESIGN.md 5/C06")
 
 claim("C13", "other",
-      "Bounded only (no obligation discharged deductively): the C13 contract is evaluated natively - STA/LTA: for every admissible number of "
-      "samples per STA/LTA a window is kept iff all ratios of all examined components lie inside the limits (cases within 1e-9 of a limit are "
-      "set aside), the returned list holds exactly those windows, in order, as the same objects; records unmodified; attached traditional / "
-      "azimuthal objects end with masks equal to the selection (also when they carried other masks before); amplitude scales 1e-13..1e5; "
-      "several components = conjunction; widening limits only re-keeps. Maximum value: keep iff the largest absolute sample (relative to the "
-      "overall largest when normalised) is below the threshold, masks follow the last call of a call sequence.",
-      "Trusted: numpy; the oracle. Bound: 2-6 windows x 400-900 samples (STA/LTA), 1-7 windows x 20-100 samples (maximum value), quick 90+120 / thorough 2000+2500 cases.",
-      "bounded native evaluation of the contract (stand-in; the functions are outside the PyVC subset: reshape/mean(axis), isinstance dispatch)", "DESIGN.md 5/C13")
+      "Proof: maximum_value_window_rejection, for three component subsets x normalised / absolute thresholds x (no object, a traditional "
+      "object, an azimuthal object with two azimuths) and any number of records of any lengths: with MX(r) the largest absolute sample of "
+      "record r over the examined components (ghost function with its complete characterisation; the code's nested np.max / comparison "
+      "chain is proved equal to it) and GM = max_r MX(r) when normalised, the returned list is the order-preserving subsequence of the same "
+      "objects with MX(r) (/GM) < threshold (ghost kept-count KC, result[KC(r)] is records[r]), and an attached object ends with both masks "
+      "equal to that selection on every azimuth, whatever masks it carried before. Bounded (labelled): sta_lta_window_rejection - numpy "
+      "reshape / mean(axis=1) are outside the PyVC subset - for every admissible number of samples per STA/LTA: kept iff all ratios of all "
+      "examined components lie inside the limits (cases within 1e-9 of a limit set aside), object identity and order, records unmodified, "
+      "masks, amplitude scales 1e-13..1e5, conjunction over components, monotonicity in the limits; and the maximum-value contract natively "
+      "incl. call sequences.",
+      TB + "A-NP-MAX/A-NP-ABS; azimuthal case proved for two azimuths (concrete list unrolled); monotonicity of KC from a proved step lemma (A-INDUCTION).",
+      "contract-based deductive verification (symbolic record lists, ghost max / kept-count functions; z3+cvc5) + bounded native evaluation of the STA/LTA contract", "DESIGN.md 5/C13")
 
 claim("C16", "other",
       "Proof (every obligation discharged by z3/cvc5 on the source re-read from /repo): sesame.peak_index returns the index of the highest local "
